@@ -73,6 +73,14 @@ CLAIMS = {
          "Decides that subscriptions and reset are built from the same defaulted lists, that request types x lists and the method wildcard are formed as documented, that every subscription passes "
          "the in-channel with the right queue variant and propagates its error, that both subscription loops skip covered patterns (access loop: known finding), that default ownership looks at "
          "the handler kinds the dispatcher serves, that an empty service path never becomes a bare token, and that reconnects re-announce ownership. Covering for arbitrary user lists is not decided.", "DESIGN.md section 4 C09"),
+ "C18": ("constant / struct-tag / literal vocabulary agreement across three packages (literals parsed inside the analyser) + symbolic linear layout check of hand-assembled buffers + value-flow of the variable segment",
+         "Decides the structural part of wire compatibility: reference, soft-reference, delete-action and data-value members agree between service, store and client; response / get / access result "
+         "members agree between service and client; every hand-built JSON buffer is exactly filled for all input lengths and its variable part is json.Marshal output (so escaping is the "
+         "encoder's). decode(encode(x))==x on values is not decided.", "DESIGN.md section 4 C18"),
+ "C19": ("path obligations on SendRequest's CFG: release-after-acquire with deferred call, error-edge reachability, select-arm classification, dominating-condition census for the timer restart, literal agreement with the service",
+         "Decides that the inbox subscription is released on every return after a successful subscribe, that marshal/subscribe/publish failures return an internal error before the wait loop, "
+         "that the timer arm returns ErrTimeout and a non-pre-response is parsed and returned, that a parsed timeout pre-response unconditionally stops the timer, installs one of exactly the "
+         "announced milliseconds and notifies every callback, and that the pre-response key matches the service's literal. Wall-clock behaviour is not decided.", "DESIGN.md section 4 C19"),
 }
 
 NA = {
